@@ -5,6 +5,13 @@ HERE = os.path.dirname(os.path.dirname(os.path.abspath(__file__)))
 ALL = [f"C{i:02d}" for i in range(1, 19)]
 # property -> (technique, level text, level note, design_ref)
 CHECKS = {
+ "C07": ("runtime reference-model monitor: independent float64 NumPy implementations of every elementary bijection (written from the "
+         "docstrings and cited papers) compared with transform() of real objects built from generated constructor arguments",
+         "Exploration: 15 kinds x generated constructor arguments x 2 parameter modes x ~60 boundary-directed inputs (6.6e4 cases per "
+         "quick run) plus spline structural clauses (passes through knots, monotone on a 2001-point grid, identity at initialisation).",
+         "Trusts the harness's reference formulas (reviewed against the docstrings/papers) and NumPy; planar u_hat is taken from the "
+         "library after checking the A.1 constraint structurally.",
+         "DESIGN.md 4/C07"),
  "C08": ("runtime reference-model monitor: a batched NumPy interpreter applies the combinators' definitions to the children's own real "
          "methods; the real combinator's four methods, declared shape/cond_shape (vs NumPy's own stack/concatenate/index semantics), "
          "merge_chains, indexing, slicing and merge_transforms are compared with it",
